@@ -1010,7 +1010,8 @@ impl GlyphDataOffsetArray for CFFAndCharStrings<'_> {
     }
 
     fn all_offsets_are_ascending(&self) -> bool {
-        let it1 = (0..self.charstrings.count()).map(|index| self.offset_for(GlyphId::new(index)));
+        // count glyphs have count + 1 offsets
+        let it1 = (0..=self.charstrings.count()).map(|index| self.offset_for(GlyphId::new(index)));
         let it2 = it1.clone().skip(1);
 
         !it1.zip(it2).any(|(start, end)| {
